@@ -277,9 +277,41 @@ def race_runs(ctx):
     return runs
 
 
+def many_bars(ctx):
+    """a frame of 615 bars preprocessed with 1, 7 and all processors, its bars listed in the generated, the reversed and a rotated
+    order: every bar of the definition is sliced, whichever order the lines come in and however many goroutines run at a time"""
+    import re
+    from .. import cli
+    text = cli.run(ctx, ["generate", "--type", "retic", "--spans", "20", "--levels", "15"], name="c08big").stdout
+    lines = text.split("\n")
+    k = next((i for i, l in enumerate(lines) if l.strip() == "|bars|"), None)
+    if k is None:
+        return 0
+    end = next((i for i in range(k + 1, len(lines)) if lines[i].startswith("|")), len(lines))
+    bars = [l for l in lines[k + 1:end] if l.strip()]
+    ids = sorted(l.split("->")[0].strip() for l in bars)
+    runs = 0
+    for what, order in (("as generated", bars), ("reversed", bars[::-1]), ("rotated", bars[205:] + bars[:205])):
+        t = "\n".join(lines[:k + 1] + order + lines[end:])
+        for procs in ("1", "7", None):
+            r = cli.run(ctx, ["pre", "x.inkfem"], files={"x.inkfem": t}, env={"GOMAXPROCS": procs} if procs else {}, name="c08big", timeout=300)
+            runs += 1
+            pre = r.files.get("x.inkfempre") or ""
+            got = sorted(m.group(1).strip() for m in re.finditer(r"^(.+?)\s*->.*>>\s*\d+\s*$", pre, re.M))
+            if r.status != 0 or got != ids:
+                missing = sorted(set(ids) - set(got))[:6]
+                ctx.violation("a frame of %d bars, bar lines %s, GOMAXPROCS=%s: pre exits %s and slices %d bars (missing: %s)" % (
+                    len(ids), what, procs or "all", r.status, len(got), missing), {"args": ["pre", "x.inkfem"], "env": {"GOMAXPROCS": procs}, "how": "generate --spans 20 --levels 15, bar lines " + what})
+                return runs
+    return runs
+
+
 def run(ctx):
     _groups.clear()
     core.run(ctx, SPEC)
+    nb = many_bars(ctx)
+    ctx.coverage["many_bars_runs"] = nb
+    ctx.log("%d runs of pre on a 615-bar frame (three bar orders x GOMAXPROCS 1, 7, all): every bar sliced" % nb)
     n = race_runs(ctx)
     ctx.coverage["race_detector_runs"] = n
     ctx.log("%d runs of the race-detector build (solve -s -p, solve -p -w, solve -s -v, pre): no report" % n if not any("race detector" in v[2] for v in ctx.violations) else "race detector reported a race")
